@@ -374,6 +374,51 @@ def r186_scale_covariant(ctx, res):
     ctx.require(res, "R18.6", n, 4, "scale-covariant operations")
 
 
+def r187_constant_angle(ctx, res):
+    """Vector.angle is acos(a.b / (|a||b|)) on its whole domain.  A branch that returns a *constant* angle (0, pi, ...) is
+    the limit of that formula only where the sign of the cosine is known: every such return must be dominated by a
+    condition that reads the dot product of the two operands (directly or through a local), or by an identity /
+    equality test of the two operands (angle 0).  A constant returned under any other guard (a cross-product or
+    parallel() test, a tolerance test on lengths) gives anti-parallel operands the angle of parallel ones."""
+    from ..astutil import expand_locals
+    from ..rcross import const_num
+
+    m = ctx.repo.fn("Vector.angle")
+    a, b = (tuple(m.params[:2]) + ("self", "other"))[:2]
+    g = ctx.cfg(m)
+    consts = [r for r in walk_local(m.node) if isinstance(r, ast.Return) and r.value is not None and
+              (const_num(r.value) is not None or txt(r.value) in ("math.pi", "pi"))]
+    bad = []
+    for r in consts:
+        nodes = g.nodes_of(r)
+        aware = False
+        for cn, _, _lab in (g.dominating_edges(nodes[0]) if nodes else []):
+            e = g.nodes[cn].ast
+            if not isinstance(e, ast.AST):
+                continue
+            e = expand_locals(m.node, e, m.params)
+            for x in ast.walk(e):
+                if isinstance(x, ast.BinOp) and isinstance(x.op, (ast.Mult, ast.MatMult)) and {txt(x.left), txt(x.right)} == {a, b}:
+                    aware = True
+                if isinstance(x, ast.Call) and isinstance(x.func, ast.Attribute) and x.func.attr in ("dot", "__mul__") and \
+                        len(x.args) == 1 and {txt(x.func.value), txt(x.args[0])} == {a, b}:
+                    aware = True
+                if isinstance(x, ast.Compare) and len(x.ops) == 1 and isinstance(x.ops[0], (ast.Is, ast.Eq)) and \
+                        {txt(x.left), txt(x.comparators[0])} == {a, b} and const_num(r.value) == 0:
+                    aware = True
+        if not aware:
+            bad.append(r)
+    ok = not bad
+    res.ob("R18.7", m.where(), "Vector.angle: constant results only where the sign of the cosine is known", ok,
+           "%d constant return(s), each dominated by a condition on the dot product of the operands" % len(consts) if ok else
+           "`%s` is returned under a guard that does not read the dot product" % txt(bad[0])[:50])
+    for r in bad[:1]:
+        res.violation("R18.7", m, r, "Vector.angle returns the constant `%s` on a branch whose guards do not read the dot product of the "
+                      "operands: collinear operands of opposite direction (cos = -1, angle pi) get the same constant as operands of "
+                      "the same direction, so the result is not acos(a.b / (|a||b|))" % txt(r.value)[:30],
+                      construct="Vector.angle constant return `%s`" % txt(r.value)[:30])
+
+
 def run(ctx, res):
     res.explanation = (
         "The real code of the vector algebra (vector.py, point.py, util.py) is interpreted over symbolic coordinates "
@@ -399,4 +444,5 @@ def run(ctx, res):
     r186_scale_covariant(ctx, res)
     k = check_acos(ctx, res, ctx.repo.fn("Vector.angle"), "R18.4")
     ctx.require(res, "R18.4", k, 1, "acos sites")
+    r187_constant_angle(ctx, res)
     res.undecided_ob("|normalized(v)| = 1 and same direction over magnitudes 1e-6..1e6; angle in [0, pi] numerically; Decimal")
